@@ -8,6 +8,9 @@ namespace Dsd.PyReaderFnsL
 open Dsd Dsd.PP Dsd.Gen Dsd.ReaderFull
 
 @[local simp] theorem except_throw_bind {ε α β} (e : ε) (f : α → Except ε β) : (throw e >>= f) = throw e := rfl
+@[local simp] theorem except_error_bind {ε α β} (e : ε) (f : α → Except ε β) : (Except.error e >>= f) = Except.error e := rfl
+@[local simp] theorem except_ok_bind {ε α β} (x : α) (f : α → Except ε β) : (Except.ok x >>= f) = f x := rfl
+@[local simp] theorem except_pure_eq {ε α} (x : α) : (pure x : Except ε α) = .ok x := rfl
 @[local simp] theorem except_throw_eq {ε α} (e : ε) : (throw e : Except ε α) = .error e := rfl
 
 /-- the two kinds of result: all six components `None` (the reaction is ignored), or reactants `line[2]`, products `line[3]`, a type that
